@@ -6,7 +6,7 @@
        p:<frame>                                        frame seen by Parse + Notify only
        d:<frame>:<type>:<cid loc>:<name loc>:<reqip loc>:<cls>:<res>:<yiaddr hex>:<lease ip hex>   DHCP (oracle: cls/res/yiaddr/lease ip)
        r:<frame>:<slla off>:<plen.off,..>:<rdnss off,..>:<dnssl labs;labs>:<route plen.off>   router advertisement
-       n:<frame>:<qname labs>:<rr;rr..>                 DNS response; rr = a,labs,off | q,labs,off | c,labs,labs
+       n:<frame>:<qname labs>:<rr;rr..>                 DNS response; rr = a,labs,off | q,labs,off | c,labs,labs | p,labs,<ip hex>
        m:<frame>:<T|F>:<id off>:<qnames labs;..>:<labs,off,n;..>:<model loc>          mDNS (l: = LLMNR)
        b:<frame>:<name loc>                             NBNS node status response
        s:<frame>:<model hex>:<manuf hex>:<os hex>       SSDP M-SEARCH (user-agent constants)
@@ -54,6 +54,7 @@ Definition p_rr (t : string) : option dnsrr :=
       if String.eqb k "a" then n <-- p_labs a ;; off <-- nat_of_dec b ;; Some (RR_A n off)
       else if String.eqb k "q" then n <-- p_labs a ;; off <-- nat_of_dec b ;; Some (RR_AAAA n off)
       else if String.eqb k "c" then n <-- p_labs a ;; c <-- p_labs b ;; Some (RR_CNAME n c)
+      else if String.eqb k "p" then n <-- p_labs a ;; ip <-- bytes_of_tok b ;; Some (RR_PTR n ip)
       else None
   | _ => None
   end.
